@@ -196,10 +196,13 @@ pub fn shard_size(rng: &mut Rng, k: usize, r: usize) -> usize {
     if mid {
         return *rng.pick(&[2usize, 4, 30, 62, 64, 66, 128, 130]);
     }
-    match rng.below(10) {
+    let small = k.max(r) <= 16;
+    match rng.below(if small && crate::thorough() { 12 } else { 10 }) {
         0..=6 => *rng.pick(&SIZES),
         7 => *rng.pick(&[1022usize, 1024, 1026, 4096, 4098]),
-        _ => 2 * rng.range(1, 200),
+        8 | 9 => 2 * rng.range(1, 200),
+        // thorough tier, small configurations: really large shards too
+        _ => *rng.pick(&[65534usize, 65536, 65538, 262_146, 1_048_576, 1_048_578]),
     }
 }
 
